@@ -130,10 +130,18 @@ Section View.
   Variable cfg : config.
   Variable full : fsmap.        (* the unrestricted view *)
   Variable m : fsmap.           (* what must be visible (restricted for the final view) *)
-  Variable restricted : bool.   (* directories may have been pruned: only non-directories are claimed *)
+  Variable restricted : bool.   (* a requirer pruned the view: a NESTED directory (depth >= 2) with no kept
+                                   file below it may have vanished with its last entry (pathtree.Remove);
+                                   top-level directories and directories above a kept file must be there *)
   Variable lenient_read : bool. (* a requirer is configured and this is not the final view: the real files
                                    of non-required nodes are deleted from disk although earlier views still
                                    hold the nodes (known finding requirer-deletes-content-of-earlier-views) *)
+
+  Definition has_file_below (r : list seg) : bool :=
+    existsb (fun kv : list seg * sentry => strictly_below r (fst kv) && negb (is_dir_entry (Some (snd kv)))) m.
+  (* may this directory be missing from the observed view? *)
+  Definition dir_may_vanish (r : list seg) : bool :=
+    restricted && Nat.leb 2 (length r) && negb (has_file_below r).
 
   Definition stat_ok (p : str) (o : sres) : bool :=
     match spec_probe p with
@@ -155,7 +163,7 @@ Section View.
             else match o with SNotExist => true | _ => false end
         | SREntry r e =>
             if negb (no_link_above full r) then true else
-            if restricted && is_dir_entry (Some e) then true else
+            if is_dir_entry (Some e) && dir_may_vanish r then true else
             match o with
             | SOk n md s => entry_agrees strict (last r []) e n md s
             | _ => false
@@ -193,8 +201,11 @@ Section View.
     | _, _ => false
     end.
 
-  Definition nondir_only_spec (l : list (seg * sentry)) := filter (fun x => negb (is_dir_entry (Some (snd x)))) l.
-  Definition nondir_only_obs (l : list dirent) := filter (fun d : dirent => negb (Z.testbit (snd (fst d)) 31)) l.
+  (* children of r that must be listed: everything, except directories that may have vanished *)
+  Definition sure_spec (r : list seg) (l : list (seg * sentry)) :=
+    filter (fun x => negb (is_dir_entry (Some (snd x)) && dir_may_vanish (r ++ [fst x]))) l.
+  Definition sure_obs (r : list seg) (l : list dirent) :=
+    filter (fun d : dirent => negb (Z.testbit (snd (fst d)) 31 && dir_may_vanish (r ++ [fst (fst d)]))) l.
 
   Definition dir_ok (p : str) (o : dres) : bool :=
     match spec_probe p with
@@ -204,9 +215,9 @@ Section View.
         let listing (r : list seg) :=
           let want := isort seg_cmp (s_children m r) in
           match o with
-          | DOk l => if restricted then all2 spec_dirent_ok (nondir_only_spec want) (nondir_only_obs l)
+          | DOk l => if restricted then all2 spec_dirent_ok (sure_spec r want) (sure_obs r l)
                      else all2 spec_dirent_ok want l
-          | DNotExist => restricted && match nondir_only_spec want with [] => true | _ => false end
+          | DNotExist => dir_may_vanish r
           | _ => false
           end in
         match s_resolve m (max_hops cfg) q with
@@ -244,7 +255,8 @@ Section View.
         let got := map (fun w : walkent => (fst (fst w), snd (fst w))) l in
         forallb (fun w : walkent => negb (snd w)) l &&
         if restricted
-        then list_eqb (fun a b => str_eqb (fst a) (fst b)) (filter (fun x => negb (snd x)) want) (filter (fun x => negb (snd x)) got)
+        then let sure := filter (fun x : str * bool => negb (snd x && dir_may_vanish (split_slash (fst x)))) in
+             list_eqb (fun a b => str_eqb (fst a) (fst b) && Bool.eqb (snd a) (snd b)) (sure want) (sure got)
         else list_eqb (fun a b => str_eqb (fst a) (fst b) && Bool.eqb (snd a) (snd b)) want got
     end.
 
